@@ -238,7 +238,14 @@ func TestSim(t *testing.T) {
 			}
 		}
 		if v := res.first(prop); v != nil {
-			min, minRes, steps := shrinkCase(w, sc, c, prop, v.Predicate)
+			start := c
+			if res.Pinned != nil {
+				w.Reset()
+				if pr := sc.Exec(w, res.Pinned, prop); pr.first(prop) != nil && pr.first(prop).Predicate == v.Predicate {
+					start = res.Pinned
+				}
+			}
+			min, minRes, steps := shrinkCase(w, sc, start, prop, v.Predicate)
 			mv := minRes.first(prop)
 			if what, isKnown := known[knownKey(mv.Property, mv.Predicate, mv.Signature)]; isKnown {
 				out.KnownCount++
